@@ -44,6 +44,29 @@ func main() {
 		tier := fs.String("tier", envOr("VERIF_TIER", "quick"), "quick or thorough")
 		_ = fs.Parse(os.Args[3:])
 		os.Exit(check(id, *tier))
+	case "dtree":
+		// debugging aid: scverif dtree <pkg> <recv|-> <name> [anon index]
+		prog, err := an.Load(nil)
+		if err != nil {
+			fmt.Println(err)
+			os.Exit(2)
+		}
+		recv := os.Args[3]
+		if recv == "-" {
+			recv = ""
+		}
+		fn := prog.Func(os.Args[2], recv, os.Args[4])
+		if fn == nil {
+			fmt.Println("not found")
+			os.Exit(2)
+		}
+		if len(os.Args) > 5 {
+			i, _ := strconv.Atoi(os.Args[5])
+			fn = fn.AnonFuncs[i]
+		}
+		for _, l := range an.DecisionTree(fn, an.DTConfig{Domains: map[string][]int64{"a.ChangeType": {0, 1, 2, 3, 4}, "b.ChangeType": {0, 1, 2, 3, 4}}}) {
+			fmt.Printf("IF %v\n   calls=%v\n   => %v undec=%q panics=%v\n", l.Assign, l.Calls, l.Returns, l.Undec, l.Panics)
+		}
 	case "replay":
 		if len(os.Args) < 3 {
 			usage()
